@@ -33,6 +33,10 @@ theorem code_shape :
     Generated.C09.loopsRereadChunkSize = false ∧
     -- 49b0b2b: the dry MAXDBSIZE pass subtracts the chunks phase I already counted
     Generated.C09.globalChunksDelta = "nck" ∧ Generated.C09.dryDeltaSubtractsPhase1 = true ∧
+    -- the time index folds a write notification into a chunk's hull with two independent ifs (MinTs, MaxTs)
+    Generated.C09.hullUpdateIndependentIfs = true ∧
+    -- deleteJournal re-checks the size under its exclusive lock
+    Generated.C09.deleteJournalRechecksSize = true ∧
     -- cac5c5d: equal latest timestamps are ordered by source id
     Generated.C09.insertPredicate =
       "si.LatestTs < ti.LatestTs || (si.LatestTs == ti.LatestTs && si.Src >= ti.Src)" := by decide
@@ -78,6 +82,31 @@ theorem before_rule (p : Params) (cks : List Chunk) (i : Nat)
   by_cases g : 0 < p.oldestTs ∧ (sizePhase p cks (psize cks)).1 < cks.length
   · exact g.1
   · simp [g] at hn
+
+/-- **Removed for BEFORE t only if ALL its events are older than t.** The newest timestamp `truncate` compares is the
+`MaxTs` of the hull the time index keeps for the chunk: created from the chunk's first write notification, every
+further notification folded in by `chkInfo.update` — whose shape (two independent `if`s) is regenerated from the
+source. `rs` are the notifications of the chunk (each the [min, max] of the records one write put there); an event
+with timestamp `ts` lies in one of them. Then a chunk taken by the time loop holds no event with `ts ≥ t`, for every
+order of arrival of the batches (in-order, out-of-order, straddling the hull on both sides). -/
+theorem before_removes_only_older (p : Params) (cks : List Chunk) (i : Nat)
+    (h1 : (chooseNow p cks).bySize ≤ i) (h2 : i < (chooseNow p cks).n)
+    (rs : List Hull) (h : Hull) (hh : chunkHull Generated.C09.hullUpdateIndependentIfs rs = some h)
+    (hc : (cks.getD i default).maxTs = h.maxTs) (ts : Int) (hts : ∃ r ∈ rs, ts ≤ r.maxTs) :
+    ts < p.oldestTs := by
+  have hfact : Generated.C09.hullUpdateIndependentIfs = true := by decide
+  rw [hfact] at hh
+  obtain ⟨r, hr, hle⟩ := hts
+  have hcov := (chunkHull_covers rs h hh r hr).2
+  have hb := (before_rule p cks i h1 h2).1
+  omega
+
+/-- with `if … else if …` in `chkInfo.update` (a seeded change the check must catch) a batch that extends the hull on
+both sides leaves `MaxTs` stale: notifications [100,117] then [50,200] give the hull [50,117], and `BEFORE 150` would
+take a chunk holding the event of 200 -/
+theorem cex_hull_else_if :
+    chunkHull false [⟨100, 117⟩, ⟨50, 200⟩] = some ⟨50, 117⟩ ∧ chunkHull true [⟨100, 117⟩, ⟨50, 200⟩] = some ⟨50, 200⟩ := by
+  decide
 
 /-- **Never below MINSIZE** in phase I: after every single removal (by either loop) at least MINSIZE is left. -/
 theorem never_below_min (p : Params) (cks : List Chunk) (i : Nat) (hi : i < (chooseNow p cks).n) :
@@ -204,6 +233,25 @@ theorem drop_only_if_empty_and_unused (p : Params) (part : Part) (h : (phase1Par
             exact ⟨hc.1, hd', hc.2⟩
           · simp [hc] at h
         · simp [hr] at h
+
+/-- **A partition is dropped only when, at the moment `deleteJournal` holds its exclusive lock, nobody else holds it
+and it holds no data** — whatever happened between the caller's look at the partition and the lock (`now` is
+arbitrary: a writer may have appended into a new chunk and released in between). Rests on the regenerated fact that
+`deleteJournal` re-checks `j.Size() > 0` under the lock. `canDelete`, the guard the sequential model uses, is this
+step with `now` = what the caller saw. -/
+theorem drop_only_without_data_at_lock (users : Nat) (now : List Chunk)
+    (h : deleteJournalAt Generated.C09.deleteJournalRechecksSize users now = true) : users = 0 ∧ psize now = 0 := by
+  have hfact : Generated.C09.deleteJournalRechecksSize = true := by decide
+  rw [hfact] at h
+  simpa [deleteJournalAt] using h
+
+theorem canDelete_is_drop_step (users : Nat) (cks : List Chunk) : canDelete users cks = deleteJournalAt true users cks := by
+  simp [canDelete, deleteJournalAt]
+
+/-- without the re-check (a seeded change the check must catch) a partition that received an event between
+`truncate`'s snapshot and the lock is dropped with the event in it -/
+theorem cex_drop_without_recheck : deleteJournalAt false 0 [⟨2, 19, 500⟩] = true ∧ deleteJournalAt true 0 [⟨2, 19, 500⟩] = false := by
+  decide
 
 /-- **DRYRUN announces what the run does — phase I, one partition, nobody else using it**: same immediate report,
 same entry for the sorted list (bytes, chunk count, deleted flag). -/
